@@ -4,6 +4,7 @@ package main
 // forall, exists, implies, ghost and spec functions) into terms.
 
 import (
+	"os"
 	"fmt"
 	"go/ast"
 	"go/constant"
@@ -544,6 +545,18 @@ func (sc *specCtx) call(e *ast.CallExpr) Value {
 			c.vars[k] = v
 		}
 		c.vars[id.Name] = mInt(bv)
+		// an explicit last argument trigger(t1, t2, ...) names the instantiation triggers (alternatives)
+		var trig []ast.Expr
+		if n := len(e.Args); n >= 3 {
+			if ce, ok := e.Args[n-1].(*ast.CallExpr); ok {
+				if fid, ok := ce.Fun.(*ast.Ident); ok && fid.Name == "trigger" {
+					trig = ce.Args
+					ec := *e
+					ec.Args = e.Args[:n-1]
+					e = &ec
+				}
+			}
+		}
 		var body *Term
 		if len(e.Args) == 4 {
 			lo, hi := c.evalInt(arg(1)), c.evalInt(arg(2))
@@ -556,7 +569,21 @@ func (sc *specCtx) call(e *ast.CallExpr) Value {
 		} else {
 			body = c.evalBool(arg(1))
 		}
+		if name == "forall" && len(trig) > 0 {
+			var pats []*Term
+			for _, te := range trig {
+				pats = append(pats, c.eval(te).C[0])
+			}
+			return mBool(ForallAlt([]*Term{bv}, body, pats))
+		}
 		if name == "forall" {
+			if autoTriggers {
+				nb, defs := abstractGround(body)
+				for _, d := range defs {
+					sc.x.assumeTrue(d)
+				}
+				return mBool(ForallAuto(bv, nb))
+			}
 			return mBool(Forall([]*Term{bv}, body))
 		}
 		return mBool(Exists([]*Term{bv}, body))
@@ -809,6 +836,9 @@ func (sc *specCtx) call(e *ast.CallExpr) Value {
 
 var boundCounter = 0
 
+// autoTriggers: give quantifiers written in specifications explicit triggers (GOVC_NOTRIGGERS=1 turns it off).
+var autoTriggers = os.Getenv("GOVC_NOTRIGGERS") == ""
+
 func ghostResult(g *GhostDecl, t *Term) Value {
 	switch g.Res {
 	case SBool:
@@ -854,7 +884,7 @@ func (x *Exec) specFuncDefs() string {
 				continue
 			}
 			sf := x.S.Funcs[n]
-			if sf.Body == nil || (sf.Rec && !x.reveal[n]) {
+			if sf.Body == nil || ((sf.Rec || sf.Opaque) && !x.reveal[n]) {
 				continue
 			}
 			ast.Inspect(sf.Body.Expr, func(nd ast.Node) bool {
@@ -901,7 +931,7 @@ func (x *Exec) specFuncDefs() string {
 			}
 		}
 		rs := specSort(sf.Res)
-		if sf.Body == nil || (sf.Rec && !x.reveal[n]) {
+		if sf.Body == nil || ((sf.Rec || sf.Opaque) && !x.reveal[n]) {
 			// recursive definitions stay opaque unless the contract reveals them
 			var ps []string
 			for i := range sf.Params {
@@ -911,6 +941,18 @@ func (x *Exec) specFuncDefs() string {
 			continue
 		}
 		body := sc.eval(sf.Body.Expr).C[0]
+		if sf.Opaque {
+			// revealed: the function stays a symbol (usable as a trigger) and gets its defining axiom
+			var ps, as []string
+			for i := range sf.Params {
+				ps = append(ps, specSort(sf.PSorts[i]).String())
+				as = append(as, symName("p."+sf.Params[i]))
+			}
+			app := "(" + symName("spec."+n) + " " + strings.Join(as, " ") + ")"
+			fmt.Fprintf(&b, "(declare-fun %s (%s) %s)\n", symName("spec."+n), strings.Join(ps, " "), rs)
+			fmt.Fprintf(&b, "(assert (forall (%s) (! (= %s %s) :pattern (%s))))\n", strings.Join(params, " "), app, body.str(map[*Term]string{}), app)
+			continue
+		}
 		kw := "define-fun"
 		if sf.Rec {
 			kw = "define-fun-rec"
